@@ -79,9 +79,10 @@ CLAIMED = {
          'parity from every generated control block. Curve facts enter as explicit hypotheses (lift_x of the key, tweak < n). The tagged-hash '
          'leaves (utils.tagged_hash, tapleaf_tagged_hash, tapbranch_tagged_hash incl. the lexicographic ordering of the children) are re-translated on '
          'every run and proved equal to the Spec hashes, and tweak_taproot_pubkey (internal key + tweak -> output key and parity) is translated and proved equal to the model (tier T); '
-         'get_tag_hashed_merkle_root and calculate_tweak are translated and proved equal to the model (hence the BIP341 root); the merkle *path* (_generate_merkle_path with its '
-         'nonlocal counter) and ControlBlock are a hand model tied to the code by the correspondence run.', NOTE_COMMON + 'SHA-256 parameter; lift_x(internal key) and tweak < n are hypotheses of the curve-dependent theorems.',
-         'Lean 4 proof (merkle root, tweak and tagged hashes over translated source; merkle path hand model) + differential correspondence', '6/C08'),
+         'get_tag_hashed_merkle_root, calculate_tweak, _generate_merkle_path (its nested traverse_level with the nonlocal leaf counter threaded through) and '
+         'ControlBlock.to_bytes are translated and proved equal to the model: the BIP341 root, and the control block built by the translated code makes the script-path '
+         'verifier recompute the address (program and parity). PublicKey.to_taproot_hex / the address classes are tied by the correspondence run.', NOTE_COMMON + 'SHA-256 parameter; lift_x(internal key) and tweak < n are hypotheses of the curve-dependent theorems.',
+         'Lean 4 proof over translated source (tagged hashes, tree, path, control block, tweak) + differential correspondence', '6/C08'),
  'C07': ('Kernel-checked theorems (the secp256k1 group-law facts CurveLaws are themselves proved: primes by Pratt certificates, Mathlib Weierstrass group law, n*G = 0 by kernel evaluation): for every secret in [1,n-1], every tweak and both parities of '
          'the internal and of the tweaked key, the secret derived by tweak_taproot_privkey is the discrete log of the point whose x coordinate the '
          'address commits to; a key-path signature verifies (BIP340) under exactly that output key, a script-path signature under the x-only '
